@@ -105,7 +105,7 @@ def cases(tier, seed):
         for t in (0.001, 0.499, 0.501, 0.999, 1.001, 1.499, 1.55):
             yield {"script": [[t, gen, valid_response(random.Random(t), gen), ["1.2.3.4", 9]]],
                    "unicast": None}
-    n = 400 if tier == "quick" else 40000
+    n = 400 if tier == "quick" else 200000
     for i in range(n):
         yield {"script": gen_script(rnd), "unicast": "10.1.2.3" if i % 4 == 0 else None}
 
